@@ -1,5 +1,7 @@
 /- C11 invariants, part 5: read locks = deferred RUnlocks; readers and a writer exclude each other -/
 import SemaModel.C11.Inv4
+set_option linter.unusedSimpArgs false
+set_option linter.unusedVariables false
 namespace Sema.C11
 
 structure InvRd (s : St) : Prop where
